@@ -1077,7 +1077,13 @@ impl Gen {
                 format!("eval 'alias a{k}=\"probe E{}\"; a{k}\na{k}'", self.marker)
             }
             2 => format!("eval 'read {v}'\n{}\nprobe {} \"${v}\"", self.data_line(), self.m()),
-            3 => format!("st 3; eval ''; probe {} $?", self.m()),
+            3 => {
+                if self.rng.chance(1, 2) {
+                    format!("st 3; eval ''; probe {} $?", self.m())
+                } else {
+                    format!("st 3; eval; probe {} $?", self.m())
+                }
+            }
             4 => format!("eval probe {} \"{} {}\"", self.m(), self.word(), self.word()),
             5 => format!("eval 'if st 0; then\nprobe {}\nfi\n'; probe {} $?", self.m(), self.m()),
             6 => format!(". /d1\n{}\nprobe {}", self.data_line(), self.m()),
@@ -1217,6 +1223,8 @@ impl Gen {
             format!("{{ st 0; }} probe {m}"),
             format!("( st 0 ) if st 0; then probe {m}; fi"),
             format!("{{ st 0; }} ! st 1"),
+            format!("{{ st 0; }} do probe {m}"),
+            format!("{{ st 0; }} in"),
         ];
         pool[self.rng.below(pool.len())].clone()
     }
